@@ -28,11 +28,32 @@ class Violation:
                                digest_size=8).hexdigest()
 
 
+def _is_np_scalar(v):
+    try:
+        import numpy as np
+
+        return isinstance(v, np.generic)
+    except Exception:  # noqa: BLE001
+        return False
+
+
+def _plain_key(k):
+    if isinstance(k, str) and not k.startswith("<"):
+        return k
+    if _is_np_scalar(k):
+        return f"<np.{type(k).__name__}>{k.item()!r}"
+    return f"<{type(k).__name__}>{k!r}"
+
+
 def _plain(v):
     """JSON-safe, *invertible* rendering: dict keys that are not strings become "<type>repr"; sets, frozensets and tuples
     are tagged so that `unplain` restores them (replay files must rebuild exactly the recorded input)."""
     if isinstance(v, dict):
-        return {(k if isinstance(k, str) and not k.startswith("<") else f"<{type(k).__name__}>{k!r}"): _plain(x) for k, x in v.items()}
+        return {_plain_key(k): _plain(x) for k, x in v.items()}
+    if _is_np_scalar(v):
+        return {"__numpy__": [type(v).__name__, v.item()]}
+    if isinstance(v, bytes):
+        return {"__bytes__": v.decode("latin-1")}
     if isinstance(v, list):
         return [_plain(x) for x in v]
     if isinstance(v, tuple):
@@ -60,13 +81,26 @@ def unplain(v):
                 return set(unplain(y) for y in x)
             if k == "__frozenset__":
                 return frozenset(unplain(y) for y in x)
+            if k == "__numpy__":
+                import numpy as np
+
+                return getattr(np, x[0])(x[1])
+            if k == "__bytes__":
+                return x.encode("latin-1")
         out = {}
         for k, x in v.items():
-            m = re.match(r"^<(int|float|bool|NoneType|tuple|str)>(.*)$", k) if isinstance(k, str) else None
+            m = re.match(r"^<(int|float|bool|NoneType|tuple|str|bytes|frozenset|np\.\w+)>(.*)$", k) if isinstance(k, str) else None
             if m:
                 try:
-                    k = ast.literal_eval(m.group(2))
-                except (ValueError, SyntaxError):
+                    if m.group(1) == "frozenset":
+                        k = eval(m.group(2), {"frozenset": frozenset})
+                    else:
+                        k = ast.literal_eval(m.group(2))
+                    if m.group(1).startswith("np."):
+                        import numpy as np
+
+                        k = getattr(np, m.group(1)[3:])(k)
+                except (ValueError, SyntaxError, AttributeError):
                     pass
             out[k] = unplain(x)
         return out
